@@ -168,6 +168,16 @@ def sk_pre(sk):
     return pre
 
 
+def pin_content(sk, maxc, which=0):
+    """extra preconditions pinning all but `maxc` content holes to the letter x (`which` rotates the choice)"""
+    idx = [i for i, ch in enumerate(sk) if ch == '§']
+    if len(idx) <= maxc:
+        return []
+    k = which % len(idx)
+    free = set((idx[k:] + idx[:k])[:maxc])
+    return ['s[%d] == chr(120)' % i for i in idx if i not in free]
+
+
 def fill(sk):
     return sk.replace('§', 'x').replace('¶', ' ').replace('↵', ' ')
 
@@ -186,7 +196,12 @@ def conditions(tier):
             call = 'body_render(s, %r, %r, %r)' % (name, pols, kbgs)
         else:
             call = 'body_render(s, %r)' % name
-        conds.append(Cond('render_' + name, 's: str', sk_pre(sk), call, timeout=T, cost=len(sk) / 8.0,
+        extra = []
+        if quick:
+            # path count grows ~3x per free content hole (3-7 s per path): two free content holes per family in the quick
+            # tier (one for the fraction / root families, whose rendering looks at the content), the others pinned to 'x'
+            extra = pin_content(sk, 1 if ('frac' in name or 'sqrt' in name or name == 'mix') else 2, k)
+        conds.append(Cond('render_' + name, 's: str', sk_pre(sk) + extra, call, timeout=T, cost=len(sk) / 8.0,
                           twin=False, smoke=[dict(s=fill(sk)), dict(s=sk.replace('§', 'Z').replace('¶', '\t').replace('↵', '\n'))],
                           descr='skeleton %r under the whitespace policies x keep_braced_groups' % sk))
     pairs = [(a, b) for i, a in enumerate(BLOCKS) for j, b in enumerate(BLOCKS) if (i + 2 * j) % (9 if quick else 1) == 0]
@@ -197,7 +212,7 @@ def conditions(tier):
             call = 'body_compose(s, %d, %r)' % (len(a), joiner)
             if quick:
                 call = 'body_compose(s, %d, %r, %r, (False,))' % (len(a), joiner, ('macros', names[1 + n % 3]))
-            conds.append(Cond(nm, 's: str', sk_pre(sk), call, timeout=T,
+            conds.append(Cond(nm, 's: str', sk_pre(sk) + (pin_content(sk, 2, n) if quick else []), call, timeout=T,
                               cost=len(sk) / 8.0, twin=False, smoke=[dict(s=fill(sk))],
                               descr='blocks %r and %r joined by %r' % (a, b, joiner)))
     return conds
@@ -211,8 +226,8 @@ META = dict(
                'strict parser with the default context'],
     bounds=dict(quick='41 document families of the core sublanguage (text, groups, formatting macros, symbol macros followed by text / '
                       'macros / empty groups, fractions, roots, accents, specials, comments, paragraph breaks, inline and display math, '
-                      'unknown and transparent environments) with content holes = any ASCII letter or digit and whitespace holes = any '
-                      'whitespace character, each rendered under the default policy and one of the three others (rotating), keep_braced_groups on group families, '
+                      'unknown and transparent environments) with content holes = any ASCII letter or digit (at most two of them free per condition, one in the fraction / '
+                      'root families, the others pinned to x) and whitespace holes = any whitespace character, each rendered under the default policy and one of the three others (rotating), keep_braced_groups on group families, '
                       'and compared with a reference written from the class documentation; composition law for every ninth pair of 9 '
                       'self-contained blocks joined by a paragraph break and by a space',
                 thorough='every family under all 4 policies x keep_braced_groups; all 81 block pairs'),
